@@ -99,6 +99,14 @@ def reset(R):
         R.ob('C17.reset', 'fresh state before %s' % what, ok,
              'connect() can reach the point where %s without having installed a new State' % what, func=q,
              node=tgt[0].ast, construct='connect: fresh state before ' + what)
+    # ... on every way through connect(): a path that returns (some other iterator) without a reset keeps the old State
+    ok = bool(fresh_nodes) and all_paths_pass(g, [g.entry], fresh_nodes, [g.exit], skip_edge=nx)
+    rets = [n for n in g.live_nodes() if n.kind == 'stmt' and isinstance(n.ast, ast.Return)]
+    ok = ok and all(r_ in runs or any(r_ in g.succ_reach(x, skip_edge=nx) for x in runs) for r_ in rets)
+    R.ob('C17.reset', 'every connect() resets and runs a new session', ok,
+         'connect() has a path that returns without installing a new State / without starting session.run(): however the '
+         'previous connection ended, that connect() does not behave like one on a fresh WebSocket', func=q, node=None,
+         construct='connect: every path resets')
     c = R.prog.cls(WS)
     it = c.attrs.get('__iter__')
     R.ob('C17.reset', '__iter__ is connect', bool(it) and U(it[-1]) == 'connect', '__iter__ = %s' % (U(it[-1]) if it else None),
